@@ -63,7 +63,8 @@ def sdo_jobs(h, quick):
                 J(h, 0, defs=SC3, depth=3, deadline=100, opts={"small": 1, "fewinit": 1, "csdo": 1}),  # fine state identity, reduced alphabet + writes to the SDO client COB-IDs 1280h
                 J(h, 0, defs=REAL1K, depth=3, deadline=100, opts={"small": 1, "fewinit": 1, "coarse": 1}),   # real 127-segment buffer
                 J(h, 0, defs=TWO3, depth=4, deadline=100, opts=dict(CLOSE, csdo=1)),         # two servers interleaved (+ 1280h writes)
-                J(h, 0, defs=SC3, depth=5, deadline=100, opts=RESIDUE)]                     # leftovers of finished transfers kept in the state identity
+                J(h, 0, defs=SC3, depth=5, deadline=100, opts=RESIDUE),                     # leftovers of finished transfers kept in the state identity
+                J(h, 0, defs=SC3, depth=3, deadline=100, opts={"small": 1, "fewinit": 1, "nopoll": 1})]   # an application that never reads the node error
     return [J(h, 0, defs=SC3, depth=60, deadline=1500, opts={"coarse": 1}, max_states=20000000),
             J(h, 1, defs=SC3, depth=60, deadline=1500, opts=CLOSE),
             J(h, 0, defs=SC3, depth=3, deadline=1200, max_states=20000000),
@@ -71,7 +72,8 @@ def sdo_jobs(h, quick):
             J(h, 0, defs=REAL1K, depth=5, deadline=1200, opts={"small": 1, "fewinit": 1, "coarse": 1}, max_states=20000000),
             J(h, 0, defs=REAL1K, depth=3, deadline=1200, opts={"small": 1}, max_states=20000000),
             J(h, 0, defs=TWO3, depth=6, deadline=1200, opts=dict(CLOSE, csdo=1), max_states=20000000),
-            J(h, 0, defs=SC3, depth=8, deadline=900, opts=RESIDUE, max_states=20000000)]
+            J(h, 0, defs=SC3, depth=8, deadline=900, opts=RESIDUE, max_states=20000000),
+            J(h, 0, defs=SC3, depth=4, deadline=900, opts={"small": 1, "fewinit": 1, "nopoll": 1}, max_states=20000000)]
 
 PROPS["C04"] = {
     "level": "model_checking",
@@ -380,3 +382,16 @@ PROPS["C10"]["text"] += " A ninth configuration splits the tick into its interru
 PROPS["C19"]["jobs"]["quick"] += [J("c19", c, deadline=150, opts={"tpdo": 1}) for c in (0, 24)]
 PROPS["C19"]["jobs"]["thorough"] += [J("c19", c, deadline=550, opts={"tpdo": 1}) for c in (0, 1, 24)]
 PROPS["C19"]["text"] += " Two configurations run once more on a node that also has an event-driven TPDO (tpdo=1): before every request the node goes OPERATIONAL -> PRE-OPERATIONAL and three ticks pass (the TPDO event timer elapses where nothing is sent), right after the request an NMT start re-initialises the PDOs - no other service may touch the timer the client is waiting on."
+
+for _p in ("C04", "C05"):
+    PROPS[_p]["text"] += " One fine-identity exploration runs once more with an application that never reads the node error."
+# SYNC gating per NMT state with 1005h being rewritten (C16's exploration) also decides C09's "SYNC in PRE-OPERATIONAL and OPERATIONAL only, each frame handled by at most one service"
+PROPS["C09"]["jobs"]["quick"] += [J("c16", 1, depth=60, deadline=120)]
+PROPS["C09"]["jobs"]["thorough"] += [J("c16", 1, depth=60, deadline=600)]
+PROPS["C09"]["text"] += " A SYNC exploration of C16 (frames on the configured and on neighbouring identifiers in every NMT state, 1005h/1006h rewritten by SDO) is part of the check as well: which identifier is the SYNC follows the object, not a stale copy."
+PROPS["C03"]["text"] += " Between an earlier upload and the upload under test the application may replace the object by a shorter or a longer one (half the size, one byte, three bytes more; new bytes)."
+PROPS["C17"]["jobs"]["quick"] += [J("c17", c, opts={"apireset": 1}) for c in (1, 4, 7)]
+PROPS["C17"]["jobs"]["thorough"] += [J("c17", c, deadline=900, opts={"apireset": 1}) for c in range(13)]
+PROPS["C17"]["text"] += " Three layouts run once more with a restart in which the application, between CONodeInit and CONodeStart, writes tentative values into every group and calls CONmtReset(CO_RESET_NODE): the groups have to come back from NVM as after an NMT reset of a started node."
+PROPS["C14"]["text"] += " At every activation the application's object trigger (COTPdoTrigObj) is probed as well: an object sends the TPDO exactly if the stored mapping contains it - links of an earlier mapping must be gone."
+PROPS["C06"]["text"] += " The typed-access sweep runs twice: the second time every entry also carries the flags asynchronous and PDO-mappable, the node is started and an unrelated node error is pending that the application never fetches."
